@@ -155,3 +155,6 @@ fn test_is_content_length_many_err() {
     assert_eq!(headers.get_all("content-length").iter().count(), 2);
     assert!(is_content_length(&headers).is_err());
 }
+
+#[cfg(kani)]
+include!(concat!(env!("ATTOHTTPC_VERIF_HARNESS"), "/body_reader.rs"));
